@@ -65,7 +65,8 @@ def run_one(res, case):
 
 
 def _slim(case):
-    return {k: case[k] for k in ("bytes", "addr", "regs", "mem", "flavour", "pfx", "op", "b2", "mn", "opc", "preb", "len")}
+    return {k: case[k] for k in ("bytes", "addr", "regs", "mem", "flavour", "pfx", "op", "b2", "mn", "opc", "preb", "len", "dontcare")
+            if k in case}
 
 
 def run_shard(spec) -> Result:
